@@ -44,7 +44,9 @@ def logWeights (β β' : α) (ll lp lq : List α) : List α :=
 def resampleP (β β' : α) (ll lp lq : List α) : List α :=
   let lw := logWeights β β' ll lp lq
   let z := logsumexp lw
-  lw.map fun v => ExpLog.exp (v - z)
+  let w := lw.map fun v => ExpLog.exp (v - z)
+  let tot := sumL w
+  w.map fun v => v / tot
 
 /-- sample efficiency `ESS/N` of the incremental weights for a move `β → β'`
     (`effective_sample_size(samples.log_weights(β')) / len(samples)`) -/
